@@ -409,10 +409,35 @@ impl C19 {
         let twins = k.chance(1, 4);
         // a few long programs: the ticket lanes grow past a queue segment (31 entries) and the
         // counters past 255
-        if k.chance(1, 32) {
+        let long = k.chance(1, 32);
+        if long {
             n = 60 + k.below(400) as usize;
         }
+        // ... and, in half of them, a row of dead tickets: pushes each followed by the removal of
+        // the same id, then one live push
+        let stale_at = k.below(20) as usize;
+        let stale_r = if long && k.chance(1, 2) {
+            *k.pick(&[33usize, 40, 64, 70, 130, 260, 520, 1030])
+        } else {
+            0
+        };
         for i in 0..n {
+            if stale_r > 0 && i == stale_at {
+                for _ in 0..=stale_r {
+                    next_id += 1;
+                    let id = IdS {
+                        ulid: false,
+                        v: 0x57a1_0000 + next_id,
+                    };
+                    let mut o = crate::wire::any_order(&mut w);
+                    o.id = id;
+                    o.ts = i as u64;
+                    ops.push(QOp::Push(o));
+                    ops.push(QOp::Remove(id));
+                }
+                // the last one stays
+                ops.pop();
+            }
             let r = w.below(100);
             let op = if r < 40 || known.is_empty() {
                 let id = if !known.is_empty() && w.chance(1, 4) {
@@ -489,7 +514,8 @@ impl C19 {
             }
         };
         for (i, op) in c.ops.iter().enumerate() {
-            hooks.begin_op(64 * (model.len() as u64 * 4 + 64));
+            // (dead tickets to step over: at most one per operation so far)
+            hooks.begin_op(64 * (model.len() as u64 * 4 + 64) + 8 * (i as u64 + model.len() as u64));
             let r: Result<(), Fail> = guarded(|| match op {
                 QOp::Push(o) => {
                     if model.iter().any(|x| x.id == o.id) {
